@@ -233,7 +233,7 @@ fn random_cases(ctx: &mut Ctx, count: usize, max_size: usize, tag: u64, mut f: i
 pub fn suite_raw(ctx: &mut Ctx) {
     let (kf, lf, ks, ls, nrand, maxsz) = match ctx.tier {
         Tier::Quick => (3, 4, 2, 3, 3000, 60),
-        Tier::Thorough => (3, 5, 3, 4, 60000, 400),
+        Tier::Thorough => (3, 6, 3, 4, 200000, 400),
     };
     for_small_cases(ctx, kf, lf, ks, ls, |ctx, c| {
         let (req, out) = emit_case(ctx, &c);
@@ -411,7 +411,7 @@ fn cap_one(ctx: &mut Ctx, c: &Case) {
 pub fn suite_cap(ctx: &mut Ctx) {
     let (kf, lf, ks, ls, nrand, maxsz) = match ctx.tier {
         Tier::Quick => (3, 4, 2, 3, 3000, 60),
-        Tier::Thorough => (3, 5, 3, 4, 60000, 300),
+        Tier::Thorough => (3, 6, 3, 4, 100000, 300),
     };
     for_small_cases(ctx, kf, lf, ks, ls, |ctx, c| {
         cap_one(ctx, &c);
